@@ -343,6 +343,19 @@ func c20RoundTrip(t *testing.T, rec *ev.Rec, round int, queries []c20Query) {
 			}
 		}
 	}
+	// the cursors of the per-block liquidation sweeps (where the vault sweep and the borrow sweep resume)
+	{
+		oc, ic := c.App.BaseApp.NewContext(true, c.Header), imp.App.BaseApp.NewContext(true, imp.Header)
+		for _, id := range []uint64{0, 1} {
+			a, fa := c.App.NewliqKeeper.GetLiquidationOffsetHolder(oc, liqV2types.VaultLiquidationsOffsetPrefix, id)
+			b, fb := imp.App.NewliqKeeper.GetLiquidationOffsetHolder(ic, liqV2types.VaultLiquidationsOffsetPrefix, id)
+			rec.Eval(1)
+			rec.Count("sweep_cursors_compared", 1)
+			if fa != fb || a.CurrentOffset != b.CurrentOffset {
+				rec.Violate("C20/state/liquidationsV2/sweep-cursor-not-carried", fmt.Sprintf("sweep cursor %d is %d (present %v) on the original chain and %d (present %v) after the round trip", id, a.CurrentOffset, fa, b.CurrentOffset, fb), map[string]interface{}{"feature_set": feature})
+			}
+		}
+	}
 	// store-level differences, only as labels for the report
 	keys := storeKeys(c)
 	o, _ := inject.Dump(c.App.CommitMultiStore(), keys)
@@ -363,6 +376,7 @@ func c20RoundTrip(t *testing.T, rec *ev.Rec, round int, queries []c20Query) {
 	// continuation can still reveal OTHER differences); some affect only a log/history query; anything else makes the
 	// continuation diverge as a mere consequence, and it is skipped.
 	healCounters, healBids, healLimit, blocking := false, false, false, ""
+	healCursor := false
 	var healPrefixes []c20Prefix
 	for l, n := range rec.LabelCounts() {
 		if n == labelsBefore[l] {
@@ -381,6 +395,8 @@ func c20RoundTrip(t *testing.T, rec *ev.Rec, round int, queries []c20Query) {
 		case l == "C20/query/esm.QuerySnapshotPrice" || l == "C20/query/esm.QueryAssetDataAfterCoolOff" || l == "C20/query/vault.QueryVaultInfoOfOwnerByApp":
 			// the price snapshot and the redemption records of an executed emergency shutdown
 			healPrefixes = append(healPrefixes, c20Prefix{esmtypes.StoreKey, esmtypes.SnapshotKeyPrefix}, c20Prefix{esmtypes.StoreKey, esmtypes.AssetToAmountKeyPrefix})
+		case l == "C20/state/liquidationsV2/sweep-cursor-not-carried":
+			healCursor = true
 		case l == "C20/query/liquidationsV2.QueryAppReserveFundsTxData" || l == "C20/query/lend.QueryFundModBalByAssetPool" || l == "C20/state/bandoracle/oracle-request-state-not-carried":
 		default:
 			blocking = l
@@ -391,7 +407,7 @@ func c20RoundTrip(t *testing.T, rec *ev.Rec, round int, queries []c20Query) {
 		rec.Count("continuation_skipped_because:"+blocking, 1)
 		return
 	}
-	if healCounters || healBids || healLimit || len(healPrefixes) > 0 {
+	if healCounters || healBids || healLimit || healCursor || len(healPrefixes) > 0 {
 		rec.Count("continuations_after_healing_id_counters:"+feature, 1)
 	} else {
 		rec.Count("clean_imports:"+feature, 1)
@@ -409,6 +425,13 @@ func c20RoundTrip(t *testing.T, rec *ev.Rec, round int, queries []c20Query) {
 	}
 	c.Begin()
 	imp.Begin()
+	if healCursor {
+		for _, id := range []uint64{0, 1} {
+			if h, found := c.App.NewliqKeeper.GetLiquidationOffsetHolder(c.App.BaseApp.NewContext(true, c.Header), liqV2types.VaultLiquidationsOffsetPrefix, id); found {
+				imp.App.NewliqKeeper.SetLiquidationOffsetHolder(imp.Ctx(), liqV2types.VaultLiquidationsOffsetPrefix, h)
+			}
+		}
+	}
 	for _, hp := range healPrefixes {
 		c20CopyPrefix(c, imp, hp)
 	}
